@@ -23,9 +23,7 @@ theorem storeInv_empty : StoreInv Store.empty := ⟨ChainP.nil, Nat.le_refl _⟩
 
 def AllInv (s : Sys) : Prop := ∀ v, StoreInv (s.storeOf v)
 
-theorem storeOf_mkNodes (n v : Nat) : (Sys.init n 0 0).storeOf v = Store.empty ∨ True := Or.inr trivial
-
-theorem node?_mkNodes_store : ∀ (n k : Nat) (nd : NodeSt), (mkNodes n)[k]? = some nd → nd.store = Store.empty := by
+theorem node?_mkNodes_store (fr : Bool) : ∀ (n k : Nat) (nd : NodeSt), (mkNodes fr n)[k]? = some nd → nd.store = ⟨[], 0, fr⟩ := by
   intro n
   induction n with
   | zero => intro k nd h; simp [mkNodes] at h
@@ -35,21 +33,23 @@ theorem node?_mkNodes_store : ∀ (n k : Nat) (nd : NodeSt), (mkNodes n)[k]? = s
     | zero => simp [mkNodes] at h; subst h; rfl
     | succ k => simp [mkNodes] at h; exact ih k nd h
 
-theorem allInv_init (n q cap : Nat) (st : Bool) : AllInv { Sys.init n q cap with started := st } := by
+theorem storeInv_empty' (fr : Bool) : StoreInv ⟨[], 0, fr⟩ := ⟨ChainP.nil, Nat.le_refl _⟩
+
+theorem allInv_init (n q cap : Nat) (st : Bool) (fr : Bool := false) : AllInv { Sys.init n q cap fr with started := st } := by
   intro v
   unfold Sys.storeOf Sys.node?
   by_cases hv : v = 0
   · simp [hv]; exact storeInv_empty
   · simp only [hv, if_false]
-    cases h : (mkNodes n)[v - 1]? with
+    cases h : (mkNodes fr n)[v - 1]? with
     | none => simp [Sys.init, h]; exact storeInv_empty
-    | some nd => simp [Sys.init, h]; rw [node?_mkNodes_store n (v - 1) nd h]; exact storeInv_empty
+    | some nd => simp [Sys.init, h]; rw [node?_mkNodes_store fr n (v - 1) nd h]; exact storeInv_empty' fr
 
 /-- a non-`cfg` op first marks the history as started and then runs on the same stores -/
-theorem step_started (s : Sys) (op : Op) (h : ∀ n q c, op ≠ .cfg n q c) :
+theorem step_started (s : Sys) (op : Op) (h : ∀ n q c fr, op ≠ .cfg n q c fr) :
     step s op = step { s with started := true } op := by
   cases op with
-  | cfg n q c => exact absurd rfl (h n q c)
+  | cfg n q c fr => exact absurd rfl (h n q c fr)
   | crash i => rfl
   | restart i => rfl
   | repair l f nf => rfl
@@ -59,13 +59,13 @@ theorem step_started (s : Sys) (op : Op) (h : ∀ n q c, op ≠ .cfg n q c) :
 /-- **c02_store_inv** — one step keeps "every replica log is an unbroken proposal chain and
     committed ≤ LEO", for every op, every responder / ack script. -/
 theorem c02_store_inv_step (s : Sys) (op : Op) (h : AllInv s) : AllInv (step s op).1 := by
-  by_cases hc : ∃ n q c, op = .cfg n q c
-  · obtain ⟨n, q, c, rfl⟩ := hc
+  by_cases hc : ∃ n q c fr, op = .cfg n q c fr
+  · obtain ⟨n, q, c, fr, rfl⟩ := hc
     simp only [step]
     split
     · exact h
-    · exact allInv_init n q c true
-  · have hne : ∀ n q c, op ≠ .cfg n q c := fun n q c e => hc ⟨n, q, c, e⟩
+    · exact allInv_init n q c true fr
+  · have hne : ∀ n q c fr, op ≠ .cfg n q c fr := fun n q c fr e => hc ⟨n, q, c, fr, e⟩
     rw [step_started s op hne]
     have h' : AllInv { s with started := true } := h
     intro v
@@ -88,7 +88,7 @@ theorem c02_committed_le_leo (ops : List Op) (v : Nat) :
 /-- **c02_committed_mono** — no operation (commit with any answers, exact replay, install with
     recovery page replacement — interrupted or not —, crash, restart) moves any replica's
     committed watermark backwards. -/
-theorem c02_committed_mono (s : Sys) (op : Op) (h : ∀ n q c, op ≠ .cfg n q c) (v : Nat) :
+theorem c02_committed_mono (s : Sys) (op : Op) (h : ∀ n q c fr, op ≠ .cfg n q c fr) (v : Nat) :
     (s.storeOf v).hw ≤ ((step s op).1.storeOf v).hw := by
   rw [step_started s op h]
   exact step_stores hwMono_rel { s with started := true } op rfl v
@@ -271,7 +271,7 @@ theorem replace_committedKept (s : Store) (e : RState) (k : Nat) (ps : List PRec
                 intro p hp hle
                 have hcom := (load_committed hl).1
                 simp only [not_or, Nat.not_lt] at hg
-                have hk : p ∈ (Store.mk (s.props.filter (fun p => p.m.last ≤ k)) s.hw).props := by
+                have hk : p ∈ (Store.mk (s.props.filter (fun p => p.m.last ≤ k)) s.hw s.fresh).props := by
                   simp only [List.mem_filter, decide_eq_true_eq]
                   exact ⟨hp, by omega⟩
                 exact appendAll_appendOnly ps _ next ha p hk
@@ -285,7 +285,7 @@ theorem committedKept_rel : StoreRel CommittedKept :=
 /-- **c02_committed_prefix_stable** — NO operation, recovery's suffix replacement included, removes
     from a replica a proposal that lies at or below that replica's committed watermark (the store
     fence "refuses cuts below committed", for every responder set and every interleaving). -/
-theorem c02_committed_prefix_stable (s : Sys) (op : Op) (h : ∀ n q c, op ≠ .cfg n q c) (v : Nat) :
+theorem c02_committed_prefix_stable (s : Sys) (op : Op) (h : ∀ n q c fr, op ≠ .cfg n q c fr) (v : Nat) :
     ∀ p ∈ (s.storeOf v).props, p.m.last ≤ (s.storeOf v).hw → p ∈ ((step s op).1.storeOf v).props := by
   rw [step_started s op h]
   exact (step_stores committedKept_rel { s with started := true } op rfl v).2
